@@ -17,10 +17,10 @@ def reps(rng, cls, kind, n):
         'nan': ['NaN'], 'pinf': ['+Inf'], 'ninf': ['-Inf'], 'zero': ['0'], 'negzero': ['-0'],
         'above': ['9223372036854775808', '9.3e18', '1e19', '1e300', '1.7976931348623157e308'] + ['%r' % (2.0 ** rng.uniform(63.0, 1000)) for _ in range(n)],
         'below': ['-9223372036854777856', '-9.3e18', '-1e300'] + ['%r' % (-(2.0 ** rng.uniform(63.01, 1000))) for _ in range(n)],
-        'posfrac': ['0.5', '1.5', '5.5', '0.999999', '123456.789'] + ['%r' % rng.uniform(0.001, 1e6) for _ in range(n)],
-        'negfrac': ['-0.5', '-1.9', '-1.5', '-0.0001'] + ['%r' % -rng.uniform(0.001, 1e6) for _ in range(n)],
-        'posint': ['1', '5', '9007199254740992', '4611686018427387904'] + [str(float(rng.randint(1, 10 ** 15))) for _ in range(n)],
-        'negint': ['-1', '-5', '-9007199254740992', '-9223372036854775808'] + [str(float(-rng.randint(1, 10 ** 15))) for _ in range(n)],
+        'posfrac': ['0.5', '1.5', '5.5', '0.999999', '123456.789', '0.49999999999999994', '0.5000000000000001', '4503599627370495.5'] + ['%r' % rng.uniform(0.001, 1e6) for _ in range(n)],
+        'negfrac': ['-0.5', '-1.9', '-1.5', '-0.0001', '-0.49999999999999994', '-4503599627370495.5'] + ['%r' % -rng.uniform(0.001, 1e6) for _ in range(n)],
+        'posint': ['1', '5', '9007199254740992', '4611686018427387904', '4503599627370497', '9007199254740991', '4503599627370496'] + [str(float(rng.randint(1, 10 ** 15))) for _ in range(n)],
+        'negint': ['-1', '-5', '-9007199254740992', '-9223372036854775808', '-4503599627370497', '-9007199254740991'] + [str(float(-rng.randint(1, 10 ** 15))) for _ in range(n)],
         'tiny': ['5e-324', '1e-300', '-1e-300'], 'huge53': ['9007199254740993', '9223372036854774784'], 'half': ['0.5', '1.5', '2.5', '-0.5', '-2.5'],
     }
     I = {'min': [str(MINI)], 'max': [str(MAXI)], 'negone': ['-1'], 'zero': ['0'], 'one': ['1'], 'big53': [str(2 ** 53 + 1), str(-(2 ** 53 + 1))],
@@ -126,6 +126,8 @@ def law(fn, tag, args, r):
             return None if (y == x if tag != 'abs' else y == abs(x)) else 'infinity changed'
         from fractions import Fraction
         fx = Fraction(x)
+        if x == 0 and tag != 'abs':     # documented special case f(+-0) = +-0
+            return None if y == 0 and math.copysign(1, y) == math.copysign(1, x) else 'zero lost its sign: got %s' % v
         if tag == 'ceil':
             return None if Fraction(y) == math.ceil(fx) else 'got %s' % v
         if tag == 'floor':
